@@ -1,13 +1,16 @@
 // C13 -- driver running the REAL evaluator (sources compiled from /repo) on formulas given on stdin.
-// One line per case:  id \t formula \t mode \t x,y,z values (comma separated);  mode = V | C
+// One line per case:  id \t formula \t mode \t x,y,z values (comma separated) [\t order \t subst];  mode = V | C | F
+//   mode F (getCxxFormula): `order` = declaration order of the variables ("zxy", ...; "-" = no declaration, the
+//   variables are registered as the formula is read), `subst` = "m" to ask for the substitutions x->vx, y->vy, z->vz
 // Cases run in forked children (batches) so that a crash of the real code is observed, attributed to its case, and the run goes on.
-// Output: R id OK value | REJECT message | EVALEXC message | COPYDIFF v v2 v3 | CRASH signal=n
+// Output: R id OK value | OKF value <C++ text> | REJECT message | EVALEXC message | COPYDIFF v v2 v3 | CRASH signal=n
 #include <cstdio>
 #include <cstdlib>
 #include <cstring>
 #include <cmath>
 #include <algorithm>
 #include <iostream>
+#include <map>
 #include <sstream>
 #include <string>
 #include <vector>
@@ -32,6 +35,45 @@ static std::vector<std::string> split(const std::string& s, char c) {
   return r;
 }
 
+// mode F: Evaluator declared with the variables in the given order (or none), values set BY NAME, getValue and
+// getCxxFormula (with or without substitutions)
+static std::string run_cxx_case(const std::string& formula, const std::vector<double>& vals, const std::string& order,
+                                const std::string& subst) {
+  char buf[64];
+  auto clean = [](std::string r) {
+    for (auto& c : r)
+      if (c == '\n' || c == '\t') c = ' ';
+    return r;
+  };
+  try {
+    std::vector<std::string> decl;
+    if (order != "-") {
+      for (char c : order) decl.push_back(std::string(1, c));
+    }
+    tfel::math::Evaluator ev = (order == "-") ? tfel::math::Evaluator(formula) : tfel::math::Evaluator(decl, formula);
+    std::map<std::string, std::string> m;
+    for (std::size_t i = 0; i != VARS.size(); ++i) {
+      try {
+        ev.setVariableValue(VARS[i], vals[i]);
+        if (subst == "m") m.insert({VARS[i], "v" + VARS[i]});
+      } catch (std::exception&) {
+        // the variable does not appear in the formula (no declaration)
+      }
+    }
+    try {
+      const double v = ev.getValue();
+      const auto f = ev.getCxxFormula(m);
+      std::snprintf(buf, sizeof(buf), "OKF %.17g ", v);
+      return buf + clean(f);
+    } catch (std::exception& e) {
+      return "EVALEXC " + clean(e.what()).substr(0, 300);
+    }
+  } catch (std::exception& e) {
+    const auto r = clean(e.what());
+    return "REJECT " + (r.size() <= 420 ? r : r.substr(0, 160) + " ... " + r.substr(r.size() - 250));
+  }
+}
+
 static std::string run_case(const std::string& formula, const std::string& mode, const std::vector<double>& vals) {
   // mode V: Evaluator(vars, formula), getValue        -> OK v | REJECT msg | EVALEXC msg
   // mode C: the same through a copy and resolveDependencies() (both must keep the value)
@@ -39,7 +81,8 @@ static std::string run_case(const std::string& formula, const std::string& mode,
   auto clean = [](std::string r) {
     for (auto& c : r)
       if (c == '\n' || c == '\t') c = ' ';
-    return r.substr(0, 300);
+    // the reason of a rejection is at the end of the message (after the formula, which may be long): keep both ends
+    return r.size() <= 420 ? r : r.substr(0, 160) + " ... " + r.substr(r.size() - 250);
   };
   try {
     tfel::math::Evaluator ev(VARS, formula);
@@ -98,7 +141,10 @@ int main() {
         std::vector<double> vals;
         for (const auto& s : split(t[3], ',')) vals.push_back(std::strtod(s.c_str(), nullptr));
         while (vals.size() < VARS.size()) vals.push_back(0.);
-        const auto r = "R " + t[0] + " " + run_case(t[1], t[2], vals) + "\n";
+        const auto r = "R " + t[0] + " " +
+                       (t[2] == "F" ? run_cxx_case(t[1], vals, t.size() > 4 ? t[4] : "-", t.size() > 5 ? t[5] : "-")
+                                    : run_case(t[1], t[2], vals)) +
+                       "\n";
         if (write(fds[1], r.c_str(), r.size()) < 0) _exit(3);
       }
       close(fds[1]);
